@@ -1,8 +1,150 @@
 //! `json <k>` (serialization succeeds and re-parses), `jsonsub <k>` (the modelled subset of the
-//! JSON rendering, extracted from what serde_json actually produced), `relocs <k> dump`.
+//! header part of the JSON rendering, extracted from what serde_json actually produced),
+//! `jsonsub <k> <field>` (one top-level member of the document, whole, in canonical text),
+//! `relocs <k> dump`.
 use crate::util::*;
 use crate::State;
 use serde_json::Value;
+
+/// The text `serde_json::to_string` produced, read back by this file's own strict reader into a tree
+/// that keeps the member order and duplicate keys (`serde_json::Value` sorts and merges them).
+enum J { Null, Bool(bool), Num(String), Str(Vec<u8>), Arr(Vec<J>), Obj(Vec<(Vec<u8>, J)>) }
+
+struct Rd<'a> { s: &'a [u8], i: usize }
+impl<'a> Rd<'a> {
+	fn peek(&self) -> Option<u8> { self.s.get(self.i).copied() }
+	fn ws(&mut self) { while let Some(b' ') | Some(b'\t') | Some(b'\n') | Some(b'\r') = self.peek() { self.i += 1; } }
+	fn eat(&mut self, lit: &[u8]) -> Result<(), String> {
+		if self.s[self.i..].starts_with(lit) { self.i += lit.len(); Ok(()) } else { Err(format!("expected {:?} at {}", String::from_utf8_lossy(lit), self.i)) }
+	}
+	fn hex4(&mut self) -> Result<u32, String> {
+		let h = self.s.get(self.i..self.i + 4).ok_or("short \\u")?;
+		let t = std::str::from_utf8(h).map_err(|e| e.to_string())?;
+		if !t.bytes().all(|b| b.is_ascii_hexdigit()) { return Err(format!("bad \\u at {}", self.i)); }
+		self.i += 4;
+		u32::from_str_radix(t, 16).map_err(|e| e.to_string())
+	}
+	fn string(&mut self) -> Result<Vec<u8>, String> {
+		self.eat(b"\"")?;
+		let mut out = Vec::new();
+		loop {
+			let b = self.peek().ok_or("unterminated string")?;
+			self.i += 1;
+			match b {
+				b'"' => break,
+				b'\\' => {
+					let e = self.peek().ok_or("unterminated escape")?;
+					self.i += 1;
+					match e {
+						b'"' => out.push(b'"'), b'\\' => out.push(b'\\'), b'/' => out.push(b'/'),
+						b'b' => out.push(8), b'f' => out.push(12), b'n' => out.push(10), b'r' => out.push(13), b't' => out.push(9),
+						b'u' => {
+							let mut c = self.hex4()?;
+							if (0xD800..0xDC00).contains(&c) {
+								self.eat(b"\\u")?;
+								let lo = self.hex4()?;
+								if !(0xDC00..0xE000).contains(&lo) { return Err("unpaired surrogate".to_string()); }
+								c = 0x10000 + ((c - 0xD800) << 10) + (lo - 0xDC00);
+							}
+							let ch = char::from_u32(c).ok_or("bad scalar")?;
+							let mut buf = [0u8; 4];
+							out.extend_from_slice(ch.encode_utf8(&mut buf).as_bytes());
+						},
+						_ => return Err(format!("bad escape at {}", self.i)),
+					}
+				},
+				0..=0x1f => return Err(format!("raw control byte at {}", self.i - 1)),
+				_ => out.push(b),
+			}
+		}
+		if std::str::from_utf8(&out).is_err() { return Err("string is not UTF-8".to_string()); }
+		Ok(out)
+	}
+	fn val(&mut self, depth: usize) -> Result<J, String> {
+		if depth > 200 { return Err("too deep".to_string()); }
+		self.ws();
+		let r = match self.peek().ok_or("unexpected end")? {
+			b'n' => { self.eat(b"null")?; J::Null },
+			b't' => { self.eat(b"true")?; J::Bool(true) },
+			b'f' => { self.eat(b"false")?; J::Bool(false) },
+			b'"' => J::Str(self.string()?),
+			b'[' => {
+				self.i += 1; self.ws();
+				let mut v = Vec::new();
+				if self.peek() == Some(b']') { self.i += 1; } else { loop {
+					v.push(self.val(depth + 1)?); self.ws();
+					match self.peek() { Some(b',') => self.i += 1, Some(b']') => { self.i += 1; break; }, _ => return Err(format!("expected , or ] at {}", self.i)) }
+				} }
+				J::Arr(v)
+			},
+			b'{' => {
+				self.i += 1; self.ws();
+				let mut v = Vec::new();
+				if self.peek() == Some(b'}') { self.i += 1; } else { loop {
+					self.ws();
+					let k = self.string()?; self.ws(); self.eat(b":")?;
+					let x = self.val(depth + 1)?; v.push((k, x)); self.ws();
+					match self.peek() { Some(b',') => self.i += 1, Some(b'}') => { self.i += 1; break; }, _ => return Err(format!("expected , or }} at {}", self.i)) }
+				} }
+				J::Obj(v)
+			},
+			b'-' | b'0'..=b'9' => {
+				let st = self.i;
+				while let Some(b'-') | Some(b'+') | Some(b'.') | Some(b'e') | Some(b'E') | Some(b'0'..=b'9') = self.peek() { self.i += 1; }
+				let t = std::str::from_utf8(&self.s[st..self.i]).unwrap();
+				// the JSON number grammar: -? (0 | [1-9][0-9]*) (. [0-9]+)? ([eE] [+-]? [0-9]+)?
+				let b = t.as_bytes(); let mut j = 0;
+				if b.get(j) == Some(&b'-') { j += 1; }
+				match b.get(j) { Some(b'0') => j += 1, Some(b'1'..=b'9') => { while let Some(b'0'..=b'9') = b.get(j) { j += 1; } }, _ => return Err(format!("bad number {}", t)) }
+				if b.get(j) == Some(&b'.') { j += 1; let s0 = j; while let Some(b'0'..=b'9') = b.get(j) { j += 1; } if j == s0 { return Err(format!("bad number {}", t)); } }
+				if let Some(b'e') | Some(b'E') = b.get(j) { j += 1; if let Some(b'+') | Some(b'-') = b.get(j) { j += 1; } let s0 = j; while let Some(b'0'..=b'9') = b.get(j) { j += 1; } if j == s0 { return Err(format!("bad number {}", t)); } }
+				if j != b.len() { return Err(format!("bad number {}", t)); }
+				J::Num(t.to_string())
+			},
+			c => return Err(format!("unexpected byte {:#x} at {}", c, self.i)),
+		};
+		Ok(r)
+	}
+}
+
+fn read_json(text: &str) -> Result<J, String> {
+	let mut rd = Rd { s: text.as_bytes(), i: 0 };
+	let v = rd.val(0)?;
+	rd.ws();
+	if rd.i != rd.s.len() { return Err(format!("trailing bytes at {}", rd.i)); }
+	Ok(v)
+}
+
+/// canonical token of a string: `'text` when it is non-empty and made of [A-Za-z0-9_.$@+#-] only, else `x<hex>`
+fn tok(s: &[u8]) -> String {
+	let safe = |b: u8| b.is_ascii_alphanumeric() || b"_.$@+#-".contains(&b);
+	if !s.is_empty() && s.iter().all(|&b| safe(b)) { format!("'{}", std::str::from_utf8(s).unwrap()) }
+	else { let mut o = String::from("x"); for b in s { o.push_str(&format!("{:02x}", b)); } o }
+}
+
+/// canonical text of a tree (the Lean driver prints the same for the model's value)
+fn canon(j: &J, out: &mut String) {
+	match j {
+		J::Null => out.push_str("null"),
+		J::Bool(b) => out.push_str(if *b { "true" } else { "false" }),
+		J::Num(n) => out.push_str(n),
+		J::Str(s) => out.push_str(&tok(s)),
+		J::Arr(v) => { out.push('['); for (i, x) in v.iter().enumerate() { if i > 0 { out.push(','); } canon(x, out); } out.push(']'); },
+		J::Obj(v) => { out.push('{'); for (i, (k, x)) in v.iter().enumerate() { if i > 0 { out.push(','); } out.push_str(&tok(k)); out.push(':'); canon(x, out); } out.push('}'); },
+	}
+}
+
+/// `jsonsub <k> <field>`: the named top-level member of the real document
+fn sub_field(text: &str, field: &str) -> String {
+	match read_json(text) {
+		Err(e) => format!("malformed {}", e),
+		Ok(J::Obj(members)) => match members.iter().find(|(k, _)| k == field.as_bytes()) {
+			Some((_, x)) => { let mut o = String::from("ok "); canon(x, &mut o); o },
+			None => "missing".to_string(),
+		},
+		Ok(_) => "malformed not an object".to_string(),
+	}
+}
 
 fn num_of(v: &Value) -> String {
 	match v { Value::Number(n) => n.to_string(), Value::Null => "-".to_string(), other => format!("?{}", other) }
@@ -37,6 +179,7 @@ pub fn dispatch(st: &mut State, fam: &str, rest: &str) -> Option<String> {
 			Ok(js) => match serde_json::from_str::<Value>(&js) { Ok(v) => format!("ok len={} keys={}", js.len(), v.as_object().map(|o| o.len()).unwrap_or(0)), Err(e) => format!("malformed {}", e) },
 			Err(e) => format!("fail {}", e) } }) },
 		("jsonsub", 1) => { let k = a[0]; with_any!(st, k, g, p => { let _ = g; match serde_json::to_value(&p) { Ok(v) => sub(&v), Err(e) => format!("fail {}", e) } }) },
+		("jsonsub", 2) => { let k = a[0]; with_any!(st, k, g, p => { let _ = g; match serde_json::to_string(&p) { Ok(js) => sub_field(&js, a[1]), Err(e) => format!("fail {}", e) } }) },
 		("relocs", 2) if a[1] == "dump" => { let k = a[0]; with_any!(st, k, g, p => match p.base_relocs() {
 			Ok(br) => {
 				let mut blocks = Vec::new();
